@@ -662,7 +662,18 @@ func (o *orbitDB) DetermineAddress(ctx context.Context, name string, storeType s
 	}
 
 	// Create the database address
-	return address.Parse(path.Join("/orbitdb", manifestHash.String(), name))
+	dbAddress, err := address.Parse(path.Join("/orbitdb", manifestHash.String(), name))
+	if err != nil {
+		return nil, err
+	}
+
+	// path.Join cleans the result: a name with parent-directory segments could
+	// replace the manifest hash by any other, i.e. name someone else's database
+	if !dbAddress.GetRoot().Equals(manifestHash) {
+		return nil, fmt.Errorf("invalid database name '%s': it does not stay below the database root", name)
+	}
+
+	return dbAddress, nil
 }
 
 func (o *orbitDB) loadCache(directory string, dbAddress address.Address) (datastore.Datastore, error) {
